@@ -167,3 +167,39 @@ Proof.
   - intros Hs. specialize (H2 e (spec_started_cand _ _ _ Hs)). rewrite Hs in H2. cbn in H2.
     now apply ep_mem_in.
 Qed.
+
+(* ---------- the specification judged against the WIRE ---------- *)
+(* The negotiated diffusion mode is what BOTH ends put on the wire for the accepted
+   version: duplex only on node-to-node and only if this end advertised
+   InitiatorAndResponder (own) and so did the peer. *)
+Definition negotiated_duplex (k : kind) (own peer : bool) : bool :=
+  match k with NtN => own && peer | _ => false end.
+Definition role_enabled_w (c : config) (own peer : bool) (r : role) : bool :=
+  match r with
+  | Initiator => negotiated_duplex (knd c) own peer || negb (server c)
+  | Responder => negotiated_duplex (knd c) own peer || server c
+  end.
+
+(* what this end advertises for every version of its family is exactly its full-duplex
+   option (the roles and the muxer mode are decided from that option: both sites agree) *)
+Definition chk_adv : bool :=
+  forallb (fun c => forallb (fun v =>
+    Bool.eqb (advertised c v) (match knd c with NtN => full_duplex c | _ => false end))
+    (family (knd c))) all_configs.
+Lemma chk_adv_ok : chk_adv = true.
+Proof. vm_compute. reflexivity. Qed.
+
+Lemma advertised_family c v : In v (family (knd c)) ->
+  advertised c v = match knd c with NtN => full_duplex c | _ => false end.
+Proof.
+  intros Hv. pose proof chk_adv_ok as H. unfold chk_adv in H.
+  rewrite forallb_forall in H. specialize (H c (all_configs_complete c)).
+  rewrite forallb_forall in H. specialize (H v Hv). now apply eqb_prop in H.
+Qed.
+
+Lemma role_enabled_wire c v own peer r : In v (family (knd c)) -> own = advertised c v ->
+  role_enabled_w c own peer r = role_enabled c peer r.
+Proof.
+  intros Hv ->. rewrite (advertised_family c v Hv).
+  unfold role_enabled_w, role_enabled, negotiated_duplex, spec_duplex. destruct (knd c); reflexivity.
+Qed.
